@@ -22,6 +22,7 @@ use lightning_signer::monitor::ChainMonitor;
 use lightning_signer::txoo::proof::{ProofType, TxoProof};
 use lightning_signer::channel::{ChannelId, ChannelSetup, CommitmentType};
 use lightning_signer::lightning::ln::chan_utils::{build_commitment_secret, make_funding_redeemscript};
+use lightning_signer::lightning::sign::ChannelSigner;
 use lightning_signer::lightning::types::payment::PaymentHash;
 use lightning_signer::monitor::ChainMonitorBase;
 use lightning_signer::node::{Node, SpendType};
@@ -239,6 +240,10 @@ impl Commit {
     }
     pub fn hold_line(&self, sigok: bool) -> String {
         format!("hold {} {} {}", self.n, self.body(), sigok as u8)
+    }
+    /// last field: bit 0 = good signatures, bit 1 = phase-1 entry point
+    pub fn hold_line_x(&self, sigok: bool, phase1: bool) -> String {
+        format!("hold {} {} {}", self.n, self.body(), sigok as u8 + 2 * phase1 as u8)
     }
     /// parse `<feerate> <toHolder> <toCp> <k> .. <m> ..` + rest
     pub fn parse(n: u64, a: &[u64]) -> Option<(Commit, Vec<u64>)> {
@@ -541,13 +546,28 @@ impl World {
             Ok(Err(st)) => {
                 self.refused += 1;
                 let c = classify(&st);
+                if std::env::var("VERIF_DEBUG").is_ok() {
+                    eprintln!("refused [{}]: {}", c, st.message());
+                }
                 self.out.tags.insert(format!("err:{}", c));
                 (format!("err:{} {}", c, self.digest()), None)
             }
         }
     }
 
+    /// can a real commitment transaction be built from these values (same predicate as `buildable` in
+    /// Drv/Policy.lean)?  The phase-1 entry points are exercised only then; the script decoder of phase 1
+    /// has fixed limits of its own (contest delays up to 2016, CLTV values that fit a 4-byte script number).
+    fn buildable(&self, cm: &Commit) -> bool {
+        const M: u64 = 2_100_000_000_000_000;
+        let sn = &self.chan.as_ref().unwrap().setup;
+        cm.n <= INITIAL_COMMITMENT_NUMBER && cm.to_holder <= M && cm.to_cp <= M
+            && cm.offered.iter().chain(cm.received.iter()).all(|(v, e)| *v <= M && *e <= 2_147_483_647)
+            && sn.holder_delay <= 2016 && sn.cp_delay <= 2016 && (sn.ctype == 1 || sn.ctype == 3)
+    }
+
     fn cp_point(&self, n: u64, variant: u64) -> PublicKey {
+        let variant = variant % 2;
         if variant != 0 || n > INITIAL_COMMITMENT_NUMBER {
             return make_test_pubkey(0x55);
         }
@@ -929,12 +949,50 @@ impl World {
         // holder's outgoing HTLCs (received by the counterparty in its commitment) are backed by keysends
         self.add_keysends(&node, &received);
         let chain_before = self.real_chain_state();
-        let r = catch_unwind(AssertUnwindSafe(|| {
-            node.with_channel(&cid, |c| {
-                c.sign_counterparty_commitment_tx_phase2(&point, n, cm.feerate as u32, cm.to_holder, cm.to_cp,
-                    offered.clone(), received.clone())
-            })
-        }));
+        // pv >= 2: the PHASE-1 entry point (`sign_counterparty_commitment_tx`): the harness builds the
+        // transaction and the output witness scripts the way the node software would, from the same values.
+        // If that cannot be built (values outside what a transaction can carry), phase 2 is used.
+        // (the phase-1 script decoder has fixed limits of its own, e.g. contest delays up to 2016: outside
+        // them phase 2 is used, the decision model is the phase-2 one)
+        let decodable = self.buildable(&cm);
+        let phase1 = if pv >= 2 && decodable {
+            catch_unwind(AssertUnwindSafe(|| {
+                node.with_channel(&cid, |c| {
+                    let htlcs = lightning_signer::channel::Channel::htlcs_info2_to_oic(&offered, &received);
+                    let ctx = c.make_counterparty_commitment_tx(&point, n, cm.feerate as u32, cm.to_holder, cm.to_cp, htlcs.clone());
+                    let params = c.make_channel_parameters();
+                    let directed = params.as_counterparty_broadcastable();
+                    let keys = c.make_counterparty_tx_keys(&point);
+                    let mut h2 = htlcs.clone();
+                    let scripts = build_tx_scripts(&keys, cm.to_cp, cm.to_holder, &mut h2, &directed,
+                        &c.setup.counterparty_points.funding_pubkey, &c.keys.pubkeys().funding_pubkey)
+                        .map_err(|_| lightning_signer::util::status::Status::internal("scripts"))?;
+                    let wit: Vec<Vec<u8>> = scripts.iter().map(|s| s.as_bytes().to_vec()).collect();
+                    Ok((ctx.trust().built_transaction().transaction.clone(), wit))
+                })
+            }))
+            .ok()
+            .and_then(|r| r.ok())
+        } else {
+            None
+        };
+        let r = match phase1 {
+            Some((tx, wit)) => {
+                self.out.tags.insert("cp:phase1".into());
+                catch_unwind(AssertUnwindSafe(|| {
+                    node.with_channel(&cid, |c| {
+                        c.sign_counterparty_commitment_tx(&tx, &wit, &point, n, cm.feerate as u32, offered.clone(), received.clone())
+                            .map(|s| (s, Vec::new()))
+                    })
+                }))
+            }
+            None => catch_unwind(AssertUnwindSafe(|| {
+                node.with_channel(&cid, |c| {
+                    c.sign_counterparty_commitment_tx_phase2(&point, n, cm.feerate as u32, cm.to_holder, cm.to_cp,
+                        offered.clone(), received.clone())
+                })
+            })),
+        };
         let (line, ok) = self.finish(r);
         if ok.is_some() {
             self.monitor_commitment(idx, true, &cm, chain_before);
@@ -954,7 +1012,9 @@ impl World {
         if rest.len() != 1 {
             return "bad-op".into();
         }
-        let sigok = rest[0] != 0;
+        // last field: bit 0 = good counterparty signatures, bit 1 = use the PHASE-1 entry point
+        let sigok = rest[0] % 2 != 0;
+        let want_phase1 = rest[0] >= 2;
         if self.chan.is_none() {
             return "nochan".into();
         }
@@ -971,8 +1031,27 @@ impl World {
             catch_unwind(AssertUnwindSafe(|| {
                 let mut ctx = channel_commitment(&cw.node_ctx, &cw.chan_ctx, n, cm.feerate as u32, cm.to_holder,
                     cm.to_cp, offered.clone(), received.clone());
-                counterparty_sign_holder_commitment(&cw.node_ctx, &cw.chan_ctx, &mut ctx)
+                let sigs = counterparty_sign_holder_commitment(&cw.node_ctx, &cw.chan_ctx, &mut ctx);
+                // transaction + witness scripts for the phase-1 entry point (as test_utils::validate_holder_commitment)
+                let tx = ctx.tx.as_ref().unwrap().trust().built_transaction().transaction.clone();
+                let htlcs = lightning_signer::channel::Channel::htlcs_info2_to_oic(&offered, &received);
+                let wit = cw.node_ctx.node.with_channel(&cw.chan_ctx.channel_id, |c| {
+                    let params = c.make_channel_parameters();
+                    let directed = params.as_holder_broadcastable();
+                    let ctx_tx = ctx.tx.as_ref().unwrap().trust();
+                    let keys = ctx_tx.keys();
+                    let scripts = build_tx_scripts(keys, cm.to_holder, cm.to_cp, &htlcs, &directed,
+                        &c.keys.pubkeys().funding_pubkey, &c.setup.counterparty_points.funding_pubkey)
+                        .map_err(|_| lightning_signer::util::status::Status::internal("scripts"))?;
+                    Ok(scripts.iter().map(|s| s.as_bytes().to_vec()).collect::<Vec<Vec<u8>>>())
+                });
+                (sigs, tx, wit.ok())
             }))
+        };
+        let (sigs, phase1) = match sigs {
+            Ok((sg, tx, Some(wit))) => (Ok(sg), Some((tx, wit))),
+            Ok((sg, _, None)) => (Ok(sg), None),
+            Err(e) => (Err(e), None),
         };
         let dummy = {
             let msg = Message::from_digest([7u8; 32]);
@@ -986,12 +1065,23 @@ impl World {
             _ => (dummy, vec![dummy; nh]),
         };
         let chain_before = self.real_chain_state();
-        let r = catch_unwind(AssertUnwindSafe(|| {
-            node.with_channel(&cid, |c| {
-                c.validate_holder_commitment_tx_phase2(n, cm.feerate as u32, cm.to_holder, cm.to_cp, offered.clone(),
-                    received.clone(), &csig, &hsigs)
-            })
-        }));
+        let decodable = self.buildable(&cm);
+        let r = match (want_phase1 && decodable, phase1) {
+            (true, Some((tx, wit))) => {
+                self.out.tags.insert("hold:phase1".into());
+                catch_unwind(AssertUnwindSafe(|| {
+                    node.with_channel(&cid, |c| {
+                        c.validate_holder_commitment_tx(&tx, &wit, n, cm.feerate as u32, offered.clone(), received.clone(), &csig, &hsigs)
+                    })
+                }))
+            }
+            _ => catch_unwind(AssertUnwindSafe(|| {
+                node.with_channel(&cid, |c| {
+                    c.validate_holder_commitment_tx_phase2(n, cm.feerate as u32, cm.to_holder, cm.to_cp, offered.clone(),
+                        received.clone(), &csig, &hsigs)
+                })
+            })),
+        };
         let (line, ok) = self.finish(r);
         if ok.is_some() {
             self.monitor_commitment(idx, false, &cm, chain_before);
